@@ -2,12 +2,24 @@
 //!
 //! Form I (small-scope input enumeration), level "exploration".
 //!
-//! * Moduli are const generics, so every modulus is instantiated by macro: every M in 2..=64 and the
-//!   large moduli 998244353, 1000000007, 2^30, 2^30+3, 2^31-19, 2^31-2, 2^31-1.  The real operations of
-//!   each instantiation sit behind a table of fn pointers (`Ops`), the enumerator itself is not generic.
+//! * Moduli are const generics, so every modulus is instantiated by macro: every M in 2..=64, the
+//!   mid-size moduli around the places where M² stops fitting in 31 / 32 bits (46337, 46341, 65536,
+//!   65537) and the large moduli 998244353, 1000000007, 2^30, 2^30+3, 2^31-19, 2^31-2, 2^31-1.  The
+//!   real operations of each instantiation sit behind a table of fn pointers (`Ops`), the enumerator
+//!   itself is not generic.
 //! * Small moduli: ALL ordered residue pairs for + - * / and the assigning forms, every residue for
 //!   neg / inv / rendering, `new(v)` for every v in [-3M, 3M] ∪ B, `pow(x, e)` for every x and every
-//!   e in 0..=2M ∪ E.  Large moduli: the same families on the stated residue boundary set.
+//!   e in 0..=max(2M,128) ∪ E.  Mid-size and large moduli: the same families on the stated residue
+//!   boundary set (which contains every 2^k and 2^k±1 below M).
+//! * Three deterministic schedules of the same case list, every one on threads created for it:
+//!   `isolated` (each modulus alone on a fresh thread), `ascending` and `descending` (ONE fresh thread
+//!   works through all moduli in that order), so state that leaks between calls or between
+//!   instantiations on a thread (thread-local caches, statics inside generic fns) is met both ways round
+//!   and independently of how rayon schedules anything.
+//! * Replay: a fresh process of the right build profile; the recorded call runs on a fresh thread, once
+//!   alone and twice after the same call (same raw arguments) under neighbouring moduli, smaller ones
+//!   first and larger ones first.  If that does not show the failure, the replay is the recorded
+//!   prefix of the schedule it was found in.  On correct code the extra calls change nothing.
 //! * Reference: i128 arithmetic (`rem_euclid`), a cycle-detection power for small moduli and an
 //!   MSB-first binary power in u128 for large ones (the code under test is LSB-first).
 //! * thorough adds complete inverse tables (every residue 1..M) for the primes 2^31-1 and 998244353.
@@ -147,6 +159,10 @@ macro_rules! moduli {
 moduli!(
     2, 3, 4, 5, 6, 7, 8, 9, 10, 11, 12, 13, 14, 15, 16, 17, 18, 19, 20, 21, 22, 23, 24, 25, 26, 27, 28, 29, 30, 31, 32, 33, 34,
     35, 36, 37, 38, 39, 40, 41, 42, 43, 44, 45, 46, 47, 48, 49, 50, 51, 52, 53, 54, 55, 56, 57, 58, 59, 60, 61, 62, 63, 64,
+    46337,      // largest prime with M² < 2^31
+    46341,      // smallest M with M² > 2^31
+    65536,      // 2^16: largest M with M² <= 2^32
+    65537,      // 2^16 + 1 (prime): smallest M whose residue products leave 32 bits
     998244353,  // competition prime
     1000000007, // competition prime
     1073741824, // 2^30
@@ -276,7 +292,11 @@ fn residues(m: u32) -> Vec<u32> {
     let mm = m as i128;
     let s = isqrt(m) as i128;
     let mut v: Vec<i128> = vec![0, 1, 2, 3, mm / 2, (mm + 1) / 2, mm / 2 - 1, (mm + 1) / 2 + 1, mm - 3, mm - 2, mm - 1];
-    v.extend([(1 << 15) - 1, 1 << 15, (1 << 15) + 1, (1 << 16) - 1, 1 << 16, (1 << 16) + 1, 46340, 46341, s - 1, s, s + 1]);
+    v.extend([46340, 46341, s - 1, s, s + 1]);
+    // every power of two with its two neighbours: where a narrower intermediate type stops being enough
+    for k in 1..=31 {
+        v.extend([(1i128 << k) - 1, 1i128 << k, (1i128 << k) + 1]);
+    }
     let mut out: Vec<u32> = v.into_iter().filter(|&r| r >= 0 && r < mm).map(|r| r as u32).collect();
     out.sort();
     out.dedup();
@@ -338,12 +358,15 @@ fn new_values(m: u32, res: &[u32]) -> Vec<i64> {
     out
 }
 
-/// Exponents: 0..=2M (small moduli) ∪ E.
+/// Exponents: 0..=128 (every bit pattern of up to 7 bits: square-and-multiply chains of every shape up to
+/// seven squarings), 0..=2M for small moduli, and E = {M-2..M+1, 2M} ∪ {2^k, 2^k±1 : k < 64} ∪ {u64::MAX-1, u64::MAX}.
 fn exponents(m: u32) -> Vec<u64> {
     let mm = m as u64;
-    let mut v: Vec<u64> = vec![0, 1, 2, 3, mm - 2, mm - 1, mm, mm + 1, 2 * mm];
-    v.extend([(1 << 31) - 1, 1 << 31, (1 << 31) + 1, (1 << 32) - 1, 1 << 32, (1 << 32) + 1]);
-    v.extend([(1 << 63) - 1, 1 << 63, (1 << 63) + 1, u64::MAX - 1, u64::MAX]);
+    let mut v: Vec<u64> = vec![mm - 2, mm - 1, mm, mm + 1, 2 * mm, u64::MAX - 1, u64::MAX];
+    v.extend(0..=128);
+    for k in 1..64 {
+        v.extend([(1u64 << k) - 1, 1u64 << k, (1u64 << k) + 1]);
+    }
     if m <= SMALL_MAX {
         v.extend(0..=2 * mm);
     }
@@ -474,11 +497,20 @@ enum Outcome {
     Fail { label: String, summary: String },
 }
 
-fn guard<T>(fam: Fam, what: &str, f: impl FnOnce() -> T) -> Result<T, Outcome> {
+/// `what` describes the call; it is only rendered when the call panics.
+fn guard<T>(fam: Fam, what: impl FnOnce() -> String, f: impl FnOnce() -> T) -> Result<T, Outcome> {
     catch(f).map_err(|p| {
         let kind = if p.contains("overflow") { "overflow_panic" } else { "panic" };
-        Outcome::Fail { label: format!("{kind}_{}", fam.name()), summary: format!("{what} panicked: {p}") }
+        Outcome::Fail { label: format!("{kind}_{}", fam.name()), summary: format!("{} panicked: {p}", what()) }
     })
+}
+
+/// Renders as the type name `Modular<M>` (only when a message is actually built).
+struct TypeName(u32);
+impl std::fmt::Display for TypeName {
+    fn fmt(&self, f: &mut std::fmt::Formatter) -> std::fmt::Result {
+        write!(f, "Modular<{}>", self.0)
+    }
 }
 
 macro_rules! tri {
@@ -505,11 +537,11 @@ fn fail(c: &Case, summary: String) -> Outcome {
 fn check_case(ops: &Ops, c: &Case) -> Outcome {
     let m = ops.m;
     let (x, y) = (c.x, c.y);
-    let t = format!("Modular<{m}>");
+    let t = TypeName(m);
     match c.fam {
         Fam::New => {
             let want = ref_new(c.v, m);
-            let got = tri!(guard(c.fam, &format!("{t}::new({})", c.v), || (ops.new)(c.v)));
+            let got = tri!(guard(c.fam, || format!("{t}::new({})", c.v), || (ops.new)(c.v)));
             if got != want {
                 return fail(c, format!("{t}::new({}).inner() = {got}; the representative of {} modulo {m} in [0,{m}) is {want}", c.v, c.v));
             }
@@ -518,7 +550,7 @@ fn check_case(ops: &Ops, c: &Case) -> Outcome {
         Fam::Read => {
             let want = ref_new(c.v, m);
             let token = format!("{}\n", c.v).into_bytes();
-            let got = tri!(guard(c.fam, &format!("reading a {t} from the token \"{}\"", c.v), || (ops.read)(&token)));
+            let got = tri!(guard(c.fam, || format!("reading a {t} from the token \"{}\"", c.v), || (ops.read)(&token)));
             if got != want {
                 return fail(c, format!("reading a {t} from the token \"{}\" gave inner() = {got}; new of that integer must be {want}", c.v));
             }
@@ -527,11 +559,11 @@ fn check_case(ops: &Ops, c: &Case) -> Outcome {
         Fam::EqNew => {
             let r = ref_new(c.v, m);
             let other = (r + 1) % m;
-            let (eq, ne) = tri!(guard(c.fam, &format!("{t}::new({}) == {t}::new({r})", c.v), || (ops.eq_new)(c.v, r as i64)));
+            let (eq, ne) = tri!(guard(c.fam, || format!("{t}::new({}) == {t}::new({r})", c.v), || (ops.eq_new)(c.v, r as i64)));
             if !eq || ne {
                 return fail(c, format!("{t}::new({}) and {t}::new({r}) denote the same class but == gave {eq}, != gave {ne}", c.v));
             }
-            let (eq2, ne2) = tri!(guard(c.fam, &format!("{t}::new({}) == {t}::new({other})", c.v), || (ops.eq_new)(c.v, other as i64)));
+            let (eq2, ne2) = tri!(guard(c.fam, || format!("{t}::new({}) == {t}::new({other})", c.v), || (ops.eq_new)(c.v, other as i64)));
             if eq2 || !ne2 {
                 return fail(c, format!("{t}::new({}) and {t}::new({other}) denote different classes but == gave {eq2}, != gave {ne2}", c.v));
             }
@@ -540,7 +572,7 @@ fn check_case(ops: &Ops, c: &Case) -> Outcome {
         Fam::Eq => {
             tri!(operand(ops, x));
             tri!(operand(ops, y));
-            let (eq, ne) = tri!(guard(c.fam, &format!("{t}: {x} == {y}"), || (ops.eq)(x, y)));
+            let (eq, ne) = tri!(guard(c.fam, || format!("{t}: {x} == {y}"), || (ops.eq)(x, y)));
             if eq != (x == y) || ne != (x != y) {
                 return fail(c, format!("{t}: residues {x} and {y}: == gave {eq}, != gave {ne}"));
             }
@@ -558,7 +590,7 @@ fn check_case(ops: &Ops, c: &Case) -> Outcome {
                 _ => (2, "*=", true, ref_mul(x, y, m), x as u64 * y as u64 >= m as u64),
             };
             let f = if assign { ops.bin_assign } else { ops.bin };
-            let got = tri!(guard(c.fam, &format!("{t}: {x} {sym} {y}"), || f(op, x, y)));
+            let got = tri!(guard(c.fam, || format!("{t}: {x} {sym} {y}"), || f(op, x, y)));
             if got != want {
                 return fail(c, format!("{t}: {x} {sym} {y} gave {got}; the representative of the integer result modulo {m} is {want}"));
             }
@@ -573,13 +605,13 @@ fn check_case(ops: &Ops, c: &Case) -> Outcome {
             let assign = c.fam == Fam::DivAssign;
             let sym = if assign { "/=" } else { "/" };
             let f = if assign { ops.bin_assign } else { ops.bin };
-            let q = tri!(guard(c.fam, &format!("{t}: {x} {sym} {y}"), || f(3, x, y)));
+            let q = tri!(guard(c.fam, || format!("{t}: {x} {sym} {y}"), || f(3, x, y)));
             let back = ((q as u128 * y as u128) % m as u128) as u32;
             if q >= m || back != x {
                 return fail(c, format!("{t}: {x} {sym} {y} gave q = {q}; q must lie in [0,{m}) and q*{y} mod {m} must be {x}, it is {back}"));
             }
             if !assign {
-                let b2 = tri!(guard(c.fam, &format!("{t}: ({x} / {y}) * {y}"), || (ops.div_mul_back)(x, y)));
+                let b2 = tri!(guard(c.fam, || format!("{t}: ({x} / {y}) * {y}"), || (ops.div_mul_back)(x, y)));
                 if b2 != x {
                     return fail(c, format!("{t}: ({x} / {y}) * {y} gave {b2}, expected {x} ({y} is coprime to {m})"));
                 }
@@ -589,7 +621,7 @@ fn check_case(ops: &Ops, c: &Case) -> Outcome {
         Fam::Neg => {
             tri!(operand(ops, x));
             let want = ref_neg(x, m);
-            let got = tri!(guard(c.fam, &format!("{t}: -{x}"), || (ops.neg)(x)));
+            let got = tri!(guard(c.fam, || format!("{t}: -{x}"), || (ops.neg)(x)));
             if got != want {
                 return fail(c, format!("{t}: -({x}) gave {got}; the representative of -{x} modulo {m} is {want}"));
             }
@@ -600,7 +632,7 @@ fn check_case(ops: &Ops, c: &Case) -> Outcome {
                 return Outcome::SkipOutOfDomain;
             }
             tri!(operand(ops, x));
-            let i = tri!(guard(c.fam, &format!("{t}: inv({x})"), || (ops.inv)(x)));
+            let i = tri!(guard(c.fam, || format!("{t}: inv({x})"), || (ops.inv)(x)));
             let prod = ((i as u128 * x as u128) % m as u128) as u32;
             if i >= m || prod != 1 {
                 return fail(c, format!("{t}: inv({x}) gave {i}; it must lie in [0,{m}) and {x}*inv mod {m} must be 1, it is {prod}"));
@@ -610,7 +642,7 @@ fn check_case(ops: &Ops, c: &Case) -> Outcome {
         Fam::Pow => {
             tri!(operand(ops, x));
             let want = ref_pow(x, c.e, m);
-            let got = tri!(guard(c.fam, &format!("{t}: pow({x}, {})", c.e), || (ops.pow)(x, c.e)));
+            let got = tri!(guard(c.fam, || format!("{t}: pow({x}, {})", c.e), || (ops.pow)(x, c.e)));
             if got != want {
                 return fail(c, format!("{t}: {x}.pow({}) gave {got}; {x}^{} modulo {m} is {want}", c.e, c.e));
             }
@@ -619,7 +651,7 @@ fn check_case(ops: &Ops, c: &Case) -> Outcome {
         Fam::Display | Fam::Debug => {
             tri!(operand(ops, x));
             let (f, which) = if c.fam == Fam::Display { (ops.display, "Display") } else { (ops.debug, "Debug") };
-            let got = tri!(guard(c.fam, &format!("{t}: {which} of residue {x}"), || f(x)));
+            let got = tri!(guard(c.fam, || format!("{t}: {which} of residue {x}"), || f(x)));
             if got != x.to_string() {
                 return fail(c, format!("{t}: {which} of the value with representative {x} printed \"{got}\""));
             }
@@ -627,11 +659,77 @@ fn check_case(ops: &Ops, c: &Case) -> Outcome {
         }
         Fam::Write => {
             tri!(operand(ops, x));
-            let got = tri!(guard(c.fam, &format!("{t}: Writer::write of residue {x}"), || (ops.write)(x)));
+            let got = tri!(guard(c.fam, || format!("{t}: Writer::write of residue {x}"), || (ops.write)(x)));
             if got != x.to_string().into_bytes() {
                 return fail(c, format!("{t}: writing the value with representative {x} produced the bytes \"{}\"", String::from_utf8_lossy(&got)));
             }
             Outcome::Ok { nontrivial: x >= 10, observed: x as u64 }
+        }
+    }
+}
+
+/// The same call with the same raw arguments under another modulus, result and panics ignored: what a
+/// program that works with several moduli on one thread does between two calls under `c.m`.
+fn exec_raw(ops: &Ops, c: &Case) {
+    let (x, y) = (c.x, c.y);
+    let _ = catch(|| match c.fam {
+        Fam::New => drop((ops.new)(c.v)),
+        Fam::Read => drop((ops.read)(format!("{}\n", c.v).as_bytes())),
+        Fam::EqNew => drop((ops.eq_new)(c.v, c.v)),
+        Fam::Eq => drop((ops.eq)(x, y)),
+        Fam::Add => drop((ops.bin)(0, x, y)),
+        Fam::AddAssign => drop((ops.bin_assign)(0, x, y)),
+        Fam::Sub => drop((ops.bin)(1, x, y)),
+        Fam::SubAssign => drop((ops.bin_assign)(1, x, y)),
+        Fam::Mul => drop((ops.bin)(2, x, y)),
+        Fam::MulAssign => drop((ops.bin_assign)(2, x, y)),
+        Fam::Div => drop(((ops.bin)(3, x, y), (ops.div_mul_back)(x, y))),
+        Fam::DivAssign => drop((ops.bin_assign)(3, x, y)),
+        Fam::Neg => drop((ops.neg)(x)),
+        Fam::Inv => drop((ops.inv)(x)),
+        Fam::Pow => drop((ops.pow)(x, c.e)),
+        Fam::Display => drop((ops.display)(x)),
+        Fam::Debug => drop((ops.debug)(x)),
+        Fam::Write => drop((ops.write)(x)),
+    });
+}
+
+/// Run `f` on a thread created for it (no thread-local state left behind by anything else).
+fn on_fresh_thread<T: Send>(f: impl FnOnce() -> T + Send) -> T {
+    std::thread::scope(|s| s.spawn(f).join()).unwrap_or_else(|_| {
+        eprintln!("MACHINERY-FAILURE property=C06 engine=mint a harness thread panicked outside the code under test");
+        std::process::exit(2)
+    })
+}
+
+/// In which order, and in which company, the cases of a modulus are executed.
+#[derive(Clone, Copy, PartialEq, Eq, Debug)]
+enum Schedule {
+    /// the modulus alone on a fresh thread
+    Isolated,
+    /// one fresh thread works through all moduli, ascending
+    Ascending,
+    /// one fresh thread works through all moduli, descending
+    Descending,
+}
+
+impl Schedule {
+    fn name(self) -> &'static str {
+        match self {
+            Schedule::Isolated => "isolated",
+            Schedule::Ascending => "ascending",
+            Schedule::Descending => "descending",
+        }
+    }
+    fn from_name(s: &str) -> Option<Schedule> {
+        [Schedule::Isolated, Schedule::Ascending, Schedule::Descending].into_iter().find(|x| x.name() == s)
+    }
+    /// The moduli one thread of this schedule executes, in order, when it gets as far as `m`.
+    fn thread_order(self, m: u32) -> Vec<u32> {
+        match self {
+            Schedule::Isolated => vec![m],
+            Schedule::Ascending => MODULI.to_vec(),
+            Schedule::Descending => MODULI.iter().rev().copied().collect(),
         }
     }
 }
@@ -648,12 +746,22 @@ struct Report {
     skipped_unconstructible: u64,
     /// executed cases with a named shape (non-vacuity facts)
     flags: BTreeMap<String, u64>,
-    /// label -> (first failing case in enumeration order, summary, number of failing cases)
-    fails: BTreeMap<String, (Case, String, u64)>,
+    /// label -> first failing case in enumeration order (+ number of failing cases)
+    fails: BTreeMap<String, Failure>,
     /// (modulus, family) -> first non-trivial agreeing case
     samples: Vec<Value>,
     /// per modulus: (M, evaluations, units whose inverse was checked)
     per_modulus: Vec<(u32, u64, u64)>,
+}
+
+#[derive(Clone)]
+struct Failure {
+    case: Case,
+    /// position of the case in `for_each_case(case.m)`
+    index: u64,
+    schedule: Schedule,
+    summary: String,
+    count: u64,
 }
 
 impl Report {
@@ -661,7 +769,7 @@ impl Report {
         *map.entry(k.to_string()).or_insert(0) += n;
     }
 
-    fn visit(&mut self, ops: &Ops, c: Case, have_sample: &mut [bool; 18]) {
+    fn visit(&mut self, ops: &Ops, c: Case, index: u64, schedule: Schedule, have_sample: &mut [bool; 18]) {
         match check_case(ops, &c) {
             Outcome::SkipOutOfDomain => {
                 self.skipped_out_of_domain += 1;
@@ -682,8 +790,8 @@ impl Report {
                 }
             }
             Outcome::Fail { label, summary } => {
-                let e = self.fails.entry(label).or_insert((c, summary, 0));
-                e.2 += 1;
+                let e = self.fails.entry(label).or_insert(Failure { case: c, index, schedule, summary, count: 0 });
+                e.count += 1;
             }
         }
         self.evaluations += 1;
@@ -698,7 +806,11 @@ impl Report {
             Fam::New if c.v >= (1 << 31) && c.v < (1 << 33) => Some("new_just_above_i32"),
             Fam::Read if c.v == i64::MIN => Some("read_i64_min"),
             Fam::Pow if c.e == u64::MAX => Some("pow_u64_max"),
+            Fam::Pow if (2..=256).contains(&c.x) && (4..=64).contains(&c.e) && m > (1 << 16) => Some("pow_small_base_exponent_4_to_64_large_M"),
             Fam::Mul if c.x as u64 * c.y as u64 >= 1 << 61 => Some("mul_product_at_least_2^61"),
+            Fam::Mul if c.x.is_power_of_two() && c.y.is_power_of_two() && c.x.min(c.y) >= 256 && m > (1 << 16) => {
+                Some("mul_both_operands_powers_of_two_at_least_2^8_large_M")
+            }
             Fam::Inv if c.x as u64 == m - 1 && m > (1 << 30) => Some("inv_of_M-1_near_2^31"),
             _ => None,
         };
@@ -720,12 +832,12 @@ impl Report {
         }
         self.skipped_out_of_domain += o.skipped_out_of_domain;
         self.skipped_unconstructible += o.skipped_unconstructible;
-        for (k, (c, s, n)) in o.fails {
-            // moduli are merged in ascending order, so the entry already present is the earlier one
+        for (k, f) in o.fails {
+            // parts are merged in enumeration order, so the entry already present is the earlier one
             match self.fails.get_mut(&k) {
-                Some(e) => e.2 += n,
+                Some(e) => e.count += f.count,
                 None => {
-                    self.fails.insert(k, (c, s, n));
+                    self.fails.insert(k, f);
                 }
             }
         }
@@ -738,35 +850,52 @@ impl Report {
     }
 }
 
-fn enumerate_modulus(ops: &Ops) -> Report {
-    let m = ops.m;
-    let mut rep = Report::default();
-    let mut hs = [false; 18];
+/// The cases of one modulus in enumeration order (simplest first); stops as soon as `f` returns false.
+fn for_each_case(m: u32, f: &mut dyn FnMut(Case) -> bool) {
     let res = residues(m);
     let vals = new_values(m, &res);
     let exps = exponents(m);
+    macro_rules! emit {
+        ($c:expr) => {
+            if !f($c) {
+                return;
+            }
+        };
+    }
     for &v in &vals {
         for fam in [Fam::New, Fam::Read, Fam::EqNew] {
-            rep.visit(ops, Case { v, ..Case::new(fam, m) }, &mut hs);
+            emit!(Case { v, ..Case::new(fam, m) });
         }
     }
     for &x in &res {
         for fam in [Fam::Neg, Fam::Inv, Fam::Display, Fam::Debug, Fam::Write] {
-            rep.visit(ops, Case { x, ..Case::new(fam, m) }, &mut hs);
+            emit!(Case { x, ..Case::new(fam, m) });
         }
     }
     for &x in &res {
         for &y in &res {
             for fam in [Fam::Eq, Fam::Add, Fam::AddAssign, Fam::Sub, Fam::SubAssign, Fam::Mul, Fam::MulAssign, Fam::Div, Fam::DivAssign] {
-                rep.visit(ops, Case { x, y, ..Case::new(fam, m) }, &mut hs);
+                emit!(Case { x, y, ..Case::new(fam, m) });
             }
         }
     }
     for &x in &res {
         for &e in &exps {
-            rep.visit(ops, Case { x, e, ..Case::new(Fam::Pow, m) }, &mut hs);
+            emit!(Case { x, e, ..Case::new(Fam::Pow, m) });
         }
     }
+}
+
+fn enumerate_modulus(ops: &Ops, schedule: Schedule) -> Report {
+    let m = ops.m;
+    let mut rep = Report::default();
+    let mut hs = [false; 18];
+    let mut index = 0u64;
+    for_each_case(m, &mut |c| {
+        rep.visit(ops, c, index, schedule, &mut hs);
+        index += 1;
+        true
+    });
     let units = *rep.per_family.get("inv").unwrap_or(&0);
     for s in rep.samples.iter_mut() {
         s["M"] = json!(m);
@@ -775,18 +904,84 @@ fn enumerate_modulus(ops: &Ops) -> Report {
     rep
 }
 
-/// The whole enumeration (identical in both tiers and in both build profiles).
-fn enumerate_all() -> Report {
-    let parts: Vec<Report> = MODULI.par_iter().map(|&m| enumerate_modulus(&ops_for(m).unwrap())).collect();
+/// One thread of a chained schedule: every modulus in the schedule's order, one after the other.
+fn enumerate_chain(schedule: Schedule) -> Report {
     let mut total = Report::default();
-    for p in parts {
-        total.merge(p); // ascending modulus order
+    for m in schedule.thread_order(0) {
+        total.merge(enumerate_modulus(&ops_for(m).unwrap(), schedule));
     }
     total
 }
 
+/// What a thread of `schedule` has executed when it reaches case number `index` of modulus `m`, then that
+/// case itself, judged.  (The replay of a failure that needs more history than `histories_for` offers.)
+fn replay_schedule_prefix(schedule: Schedule, target: &Case, index: u64) -> Outcome {
+    let mut out = Outcome::SkipOutOfDomain;
+    for m in schedule.thread_order(target.m) {
+        let ops = ops_for(m).unwrap();
+        let mut i = 0u64;
+        for_each_case(m, &mut |c| {
+            if m == target.m && i == index {
+                out = check_case(&ops, target);
+                return false;
+            }
+            let _ = check_case(&ops, &c);
+            i += 1;
+            true
+        });
+        if m == target.m {
+            break;
+        }
+    }
+    out
+}
+
+struct Enumerated {
+    isolated: Report,
+    ascending: Report,
+    descending: Report,
+    /// label -> its first failure in the first schedule that has one (isolated, ascending, descending)
+    fails: BTreeMap<String, Failure>,
+}
+
+impl Enumerated {
+    fn evaluations(&self) -> u64 {
+        self.isolated.evaluations + self.ascending.evaluations + self.descending.evaluations
+    }
+}
+
+/// The whole enumeration (identical in both tiers and in both build profiles): the three schedules run
+/// side by side, each on threads of its own.
+fn enumerate_all() -> Enumerated {
+    let (isolated, ascending, descending) = std::thread::scope(|s| {
+        let asc = s.spawn(|| enumerate_chain(Schedule::Ascending));
+        let desc = s.spawn(|| enumerate_chain(Schedule::Descending));
+        let parts: Vec<Report> = MODULI.par_iter().map(|&m| on_fresh_thread(|| enumerate_modulus(&ops_for(m).unwrap(), Schedule::Isolated))).collect();
+        let mut iso = Report::default();
+        for p in parts {
+            iso.merge(p); // ascending modulus order
+        }
+        let chain = |h: std::thread::ScopedJoinHandle<Report>| {
+            h.join().unwrap_or_else(|_| {
+                eprintln!("MACHINERY-FAILURE property=C06 engine=mint a harness thread panicked outside the code under test");
+                std::process::exit(2)
+            })
+        };
+        (iso, chain(asc), chain(desc))
+    });
+    let mut fails: BTreeMap<String, Failure> = BTreeMap::new();
+    for r in [&isolated, &ascending, &descending] {
+        for (label, f) in &r.fails {
+            fails.entry(label.clone()).or_insert_with(|| f.clone());
+        }
+    }
+    Enumerated { isolated, ascending, descending, fails }
+}
+
 /// Facts that prove the interesting paths ran; Err = the harness did not explore what it claims.
-fn non_vacuity(r: &Report) -> Result<(), String> {
+fn non_vacuity(en: &Enumerated) -> Result<(), String> {
+    let r = &en.isolated;
+    let clean = en.fails.is_empty();
     for f in [
         "add_sum_exactly_M",
         "sub_equal_operands",
@@ -796,17 +991,25 @@ fn non_vacuity(r: &Report) -> Result<(), String> {
         "new_just_above_i32",
         "read_i64_min",
         "pow_u64_max",
+        "pow_small_base_exponent_4_to_64_large_M",
         "mul_product_at_least_2^61",
+        "mul_both_operands_powers_of_two_at_least_2^8_large_M",
         "inv_of_M-1_near_2^31",
     ] {
-        if r.flags.get(f).copied().unwrap_or(0) == 0 && r.fails.is_empty() {
+        if r.flags.get(f).copied().unwrap_or(0) == 0 && clean {
             return Err(format!("no executed case of shape {f}"));
         }
     }
-    if r.per_modulus.len() != MODULI.len() {
-        return Err("not every modulus was enumerated".into());
+    for (name, rep) in [("isolated", &en.isolated), ("ascending", &en.ascending), ("descending", &en.descending)] {
+        if rep.per_modulus.len() != MODULI.len() {
+            return Err(format!("schedule {name}: not every modulus was enumerated"));
+        }
+        // on code that holds the property every schedule executes exactly the same cases
+        if clean && (rep.evaluations != r.evaluations || rep.per_family != r.per_family || rep.nontrivial != r.nontrivial) {
+            return Err(format!("schedule {name} executed {} cases, schedule isolated {}", rep.evaluations, r.evaluations));
+        }
     }
-    if r.fails.is_empty() && r.skipped_unconstructible == 0 {
+    if clean && r.skipped_unconstructible == 0 {
         for &(m, _, units) in &r.per_modulus {
             if m <= SMALL_MAX && units != phi(m) as u64 {
                 return Err(format!("modulus {m}: {units} inverses checked, phi({m}) = {}", phi(m)));
@@ -963,14 +1166,50 @@ fn dbg_binary() -> Result<std::path::PathBuf, String> {
     Ok(p)
 }
 
-fn violations_json(r: &Report, profile: &str) -> Vec<Value> {
-    r.fails
+/// The company a replayed call under `m` gets: none; the two nearest smaller and the two nearest larger
+/// instantiated moduli, smaller ones first; the same moduli, larger ones first.
+fn histories_for(m: u32) -> Vec<Vec<u32>> {
+    let Some(p) = MODULI.iter().position(|&x| x == m) else { return vec![vec![]] };
+    let up: Vec<u32> = MODULI[p.saturating_sub(2)..p].iter().chain(&MODULI[p + 1..(p + 3).min(MODULI.len())]).copied().collect();
+    let down: Vec<u32> = up.iter().rev().copied().collect();
+    vec![vec![], up, down]
+}
+
+fn replay_json(c: &Case, profile: &str) -> Value {
+    let mut v = c.to_json(profile);
+    v["histories"] = json!(histories_for(c.m));
+    v
+}
+
+fn violations_json(en: &Enumerated, profile: &str) -> Vec<Value> {
+    en.fails
         .iter()
-        .map(|(label, (c, summary, n))| {
+        .map(|(label, f)| {
+            let c = &f.case;
+            let mut replay = replay_json(c, profile);
+            let mut note = String::new();
+            let mut sig_tail = String::new();
+            if f.schedule != Schedule::Isolated {
+                sig_tail = format!(",schedule={}", f.schedule.name());
+                note = format!(
+                    "; seen only with history: schedule {} = one thread working through all moduli in that order (no failure of this family with each modulus alone on a fresh thread)",
+                    f.schedule.name()
+                );
+            }
+            if confirm(&replay).is_ok() {
+                // the short histories do not show it: replay what the thread of the schedule had executed before
+                replay.as_object_mut().unwrap().remove("histories");
+                replay["schedule_prefix"] = json!({"schedule": f.schedule.name(), "index": f.index});
+                note += &format!(
+                    "; not reproduced by the call alone or after the same call under neighbouring moduli, so the replay re-executes everything schedule {} runs on that thread before this case (number {} of its modulus)",
+                    f.schedule.name(),
+                    f.index
+                );
+            }
             json!({
-                "signature": format!("{label}:{}", c.args()),
-                "summary": format!("{summary} [first of {n} failing case(s) of family {label}; build profile {profile}]"),
-                "replay": c.to_json(profile),
+                "signature": format!("{label}:{}{sig_tail}", c.args()),
+                "summary": format!("{} [first of {} failing case(s) of family {label}; build profile {profile}{note}]", f.summary, f.count),
+                "replay": replay,
             })
         })
         .collect()
@@ -978,67 +1217,117 @@ fn violations_json(r: &Report, profile: &str) -> Vec<Value> {
 
 /// Child mode: same enumeration, one JSON line, no evidence.
 fn dbg_pass_child() -> ! {
-    let r = enumerate_all();
-    let vac = non_vacuity(&r).err();
+    let en = enumerate_all();
+    let vac = non_vacuity(&en).err();
+    let r = &en.isolated;
     let out = json!({
         "profile": if cfg!(debug_assertions) { "dbg" } else { "release" },
         "debug_assertions": cfg!(debug_assertions),
         "overflow_checks_active": overflow_checks_active(),
-        "evaluations": r.evaluations,
+        "evaluations": en.evaluations(),
+        "evaluations_per_schedule": {"isolated": en.isolated.evaluations, "ascending": en.ascending.evaluations, "descending": en.descending.evaluations},
         "distinct_nontrivial": r.distinct_nontrivial(),
         "per_family_evaluations": r.per_family,
         "skipped_out_of_domain": r.skipped_out_of_domain,
         "skipped_operand_unconstructible": r.skipped_unconstructible,
         "non_vacuity_failure": vac,
-        "violations": violations_json(&r, "dbg"),
+        "violations": violations_json(&en, "dbg"),
     });
     println!("{out}");
     std::process::exit(0)
 }
 
-/// Child mode: plain re-execution of one case in this build profile; one JSON line.
-fn dbg_confirm_child(arg: &str) -> ! {
-    let v: Value = serde_json::from_str(arg).unwrap_or(Value::Null);
-    let r = confirm_here(&v);
-    println!("{}", json!({"overflow_checks_active": overflow_checks_active(), "err": r.err()}));
+/// Child mode: plain re-execution of one recorded case in this process and build profile; one JSON line.
+fn confirm_child(arg: &str) -> ! {
+    let answer = match serde_json::from_str::<Value>(arg).map_err(|e| e.to_string()).and_then(|v| confirm_here(&v)) {
+        Ok(r) => json!({"overflow_checks_active": overflow_checks_active(), "err": r.err()}),
+        Err(e) => json!({"machinery": e}),
+    };
+    println!("{answer}");
     std::process::exit(0)
 }
 
-fn confirm_here(v: &Value) -> Result<(), String> {
+/// Outer Err: the recorded value cannot be executed (machinery).  Inner Err: the case violates the property.
+fn confirm_here(v: &Value) -> Result<Result<(), String>, String> {
     let c = Case::from_json(v).ok_or_else(|| format!("malformed replay value {v}"))?;
     let ops = ops_for(c.m).ok_or_else(|| format!("modulus {} is not instantiated in this engine", c.m))?;
-    match check_case(&ops, &c) {
-        Outcome::Fail { label, summary } => Err(format!("{label}:{} — {summary}", c.args())),
+    let verdict = |o: Outcome, company: String| match o {
+        Outcome::Fail { label, summary } => Err(format!("{label}:{} — {summary}{company}", c.args())),
         _ => Ok(()),
+    };
+    if let Some(p) = v.get("schedule_prefix") {
+        let schedule = p["schedule"].as_str().and_then(Schedule::from_name).ok_or_else(|| format!("malformed schedule_prefix {p}"))?;
+        let index = p["index"].as_u64().ok_or_else(|| format!("malformed schedule_prefix {p}"))?;
+        let o = on_fresh_thread(|| replay_schedule_prefix(schedule, &c, index));
+        return Ok(verdict(o, format!(" [on a fresh thread, after everything schedule {} executes before this case]", schedule.name())));
     }
+    let histories: Vec<Vec<u32>> = match v.get("histories") {
+        Some(h) => serde_json::from_value(h.clone()).map_err(|e| format!("malformed histories: {e}"))?,
+        None => vec![vec![]],
+    };
+    for h in histories {
+        let others: Vec<Ops> = h.iter().map(|&a| ops_for(a).ok_or_else(|| format!("modulus {a} is not instantiated in this engine"))).collect::<Result<_, _>>()?;
+        let o = on_fresh_thread(|| {
+            for other in &others {
+                exec_raw(other, &c);
+            }
+            check_case(&ops, &c)
+        });
+        let company = if h.is_empty() { String::new() } else { format!(" [on a fresh thread, after the same call under the moduli {h:?}]") };
+        let r = verdict(o, company);
+        if r.is_err() {
+            return Ok(r);
+        }
+    }
+    Ok(Ok(()))
 }
 
-/// A replay that needs the overflow-checking build cannot be decided without it: exit 2, never a verdict.
+/// A replay that cannot be executed as recorded cannot be decided: exit 2, never a verdict.
 fn confirm_machinery_failure(msg: &str) -> ! {
     println!("MACHINERY-FAILURE property=C06 engine=mint {msg}");
     eprintln!("MACHINERY-FAILURE property=C06 engine=mint {msg}");
     std::process::exit(2)
 }
 
-/// Plain re-execution of one recorded case, in the build profile it was found in.
+/// Plain re-execution of one recorded case in the build profile it was found in.  Every history gets a
+/// fresh process (and in it a fresh thread), so nothing the enumeration or another history left behind
+/// in thread-local or process-wide state can take part.
 fn confirm(v: &Value) -> Result<(), String> {
-    if v["profile"] == "dbg" && !cfg!(debug_assertions) {
-        let bin = dbg_binary().unwrap_or_else(|e| confirm_machinery_failure(&e));
+    let want_dbg = v["profile"] == "dbg";
+    let bin = if want_dbg && !cfg!(debug_assertions) {
+        dbg_binary().unwrap_or_else(|e| confirm_machinery_failure(&e))
+    } else {
+        std::env::current_exe().unwrap_or_else(|e| confirm_machinery_failure(&format!("current_exe: {e}")))
+    };
+    let runs: Vec<Value> = match v.get("histories").and_then(|h| h.as_array()) {
+        Some(hs) if v.get("schedule_prefix").is_none() => hs
+            .iter()
+            .map(|h| {
+                let mut one = v.clone();
+                one["histories"] = json!([h]);
+                one
+            })
+            .collect(),
+        _ => vec![v.clone()],
+    };
+    for one in runs {
         let out = std::process::Command::new(&bin)
-            .args(["C06", "quick", "--dbg-confirm", &v.to_string()])
+            .args(["C06", "quick", "--confirm-child", &one.to_string()])
             .output()
             .unwrap_or_else(|e| confirm_machinery_failure(&format!("cannot run {}: {e}", bin.display())));
         let line = String::from_utf8_lossy(&out.stdout);
         let r: Value = serde_json::from_str(line.trim()).unwrap_or_else(|e| confirm_machinery_failure(&format!("unreadable answer of {}: {e}", bin.display())));
-        if r["overflow_checks_active"] != true {
+        if let Some(m) = r["machinery"].as_str() {
+            confirm_machinery_failure(m);
+        }
+        if want_dbg && r["overflow_checks_active"] != true {
             confirm_machinery_failure(&format!("{} was not built with overflow checks", bin.display()));
         }
-        return match r["err"].as_str() {
-            Some(s) => Err(s.to_string()),
-            None => Ok(()),
-        };
+        if let Some(s) = r["err"].as_str() {
+            return Err(s.to_string());
+        }
     }
-    confirm_here(v)
+    Ok(())
 }
 
 // ---------------------------------------------------------------------------------------------
@@ -1048,7 +1337,7 @@ fn main() {
     quiet_panics();
     match args.extra.first().map(|s| s.as_str()) {
         Some("--dbg-pass") => dbg_pass_child(),
-        Some("--dbg-confirm") => dbg_confirm_child(args.extra.get(1).map(|s| s.as_str()).unwrap_or("null")),
+        Some("--confirm-child") => confirm_child(args.extra.get(1).map(|s| s.as_str()).unwrap_or("null")),
         _ => {}
     }
     if args.replay.is_some() {
@@ -1060,17 +1349,23 @@ fn main() {
     }
 
     // ---- pass 1: the enumeration, in this (release) build
-    let rep = enumerate_all();
-    if let Err(e) = non_vacuity(&rep) {
+    let en = enumerate_all();
+    if let Err(e) = non_vacuity(&en) {
         run.machinery_failure(&format!("non-vacuity check failed: {e}"));
     }
-    for v in violations_json(&rep, "release") {
+    for v in violations_json(&en, "release") {
         run.violation(Violation::new(v["signature"].as_str().unwrap(), v["summary"].as_str().unwrap(), v["replay"].clone()));
     }
-    let mut evaluations = rep.evaluations;
+    let rep = &en.isolated;
+    let mut evaluations = en.evaluations();
     let mut distinct = rep.distinct_nontrivial();
     let mut exhaustive = true;
-    run.cov("evaluations_enumeration", rep.evaluations);
+    run.cov("evaluations_enumeration", en.evaluations());
+    run.cov(
+        "evaluations_per_schedule",
+        json!({"isolated": en.isolated.evaluations, "ascending": en.ascending.evaluations, "descending": en.descending.evaluations}),
+    );
+    run.cov("replay_histories_example", json!({"M": 998244353u32, "histories": histories_for(998244353)}));
     run.cov("per_family_evaluations", json!(rep.per_family));
     run.cov("per_family_nontrivial", json!(rep.nontrivial));
     run.cov("skipped_out_of_domain", rep.skipped_out_of_domain);
@@ -1078,12 +1373,13 @@ fn main() {
     run.cov("skipped_operand_unconstructible", rep.skipped_unconstructible);
     run.cov("shapes_executed", json!(rep.flags));
     run.cov("moduli_small", format!("every M in 2..={SMALL_MAX} (all residues, all ordered pairs)"));
-    run.cov("moduli_large", json!(MODULI.iter().filter(|&&m| m > SMALL_MAX).collect::<Vec<_>>()));
+    run.cov("moduli_mid_and_large", json!(MODULI.iter().filter(|&&m| m > SMALL_MAX).collect::<Vec<_>>()));
     run.cov("moduli_large_boundary_residues", json!(residues(2147483647)));
+    run.cov("exponents_large_moduli", exponents(2147483647).len());
     run.cov("units_checked_small_moduli", rep.per_modulus.iter().filter(|p| p.0 <= SMALL_MAX).map(|p| p.2).sum::<u64>());
     run.cov("per_modulus_evaluations_first_and_last", json!([rep.per_modulus.first().map(|p| (p.0, p.1)), rep.per_modulus.last().map(|p| (p.0, p.1))]));
-    if !rep.fails.is_empty() {
-        run.cov("failing_cases_per_family", json!(rep.fails.iter().map(|(k, v)| (k.clone(), v.2)).collect::<BTreeMap<_, _>>()));
+    if !en.fails.is_empty() {
+        run.cov("failing_cases_per_family", json!(en.fails.iter().map(|(k, f)| (k.clone(), json!({"schedule": f.schedule.name(), "cases": f.count}))).collect::<BTreeMap<_, _>>()));
     }
     // samples: VERIF_SEED only rotates which of the recorded cases are printed
     if !rep.samples.is_empty() {
@@ -1111,7 +1407,7 @@ fn main() {
             let full = t.lo == 1 && t.hi == m;
             if let Some((x, s)) = &t.first_fail {
                 let c = Case { x: *x, ..Case::new(Fam::Inv, m) };
-                run.violation(Violation::new(format!("inv_table:{}", c.args()), s.clone(), c.to_json("release")));
+                run.violation(Violation::new(format!("inv_table:{}", c.args()), s.clone(), replay_json(&c, "release")));
             } else {
                 if t.checked != (t.hi - t.lo) as u64 {
                     run.machinery_failure(&format!("inverse table of {m}: {} residues checked, {} expected", t.checked, t.hi - t.lo));
@@ -1156,8 +1452,8 @@ fn main() {
         run.machinery_failure(&format!("overflow-checking pass: non-vacuity check failed: {s}"));
     }
     let dbg_violations = d["violations"].as_array().cloned().unwrap_or_default();
-    if dbg_violations.is_empty() && !run.has_violations() && d["evaluations"].as_u64() != Some(rep.evaluations) {
-        run.machinery_failure(&format!("the two build profiles enumerated different numbers of cases: release {}, dbg {}", rep.evaluations, d["evaluations"]));
+    if dbg_violations.is_empty() && !run.has_violations() && d["evaluations"].as_u64() != Some(en.evaluations()) {
+        run.machinery_failure(&format!("the two build profiles enumerated different numbers of cases: release {}, dbg {}", en.evaluations(), d["evaluations"]));
     }
     for v in &dbg_violations {
         // a signature already reported by the release pass is de-duplicated by `Run::violation`
@@ -1176,17 +1472,23 @@ fn main() {
     run.cov("exhaustive", exhaustive);
     run.cov(
         "exhaustive_scope",
-        "complete for the stated finite space: every residue / ordered residue pair of every M in 2..=64; for the 7 large moduli the stated boundary sets only (not all residues), except the complete inverse tables of the thorough tier",
+        "complete for the stated finite space: every residue / ordered residue pair of every M in 2..=64; for the 4 mid-size and 7 large moduli the stated boundary sets only (not all residues), except the complete inverse tables of the thorough tier",
     );
     run.cov(
         "rule",
-        "per modulus (70 const-generic instantiations): new/read/eq_new on every v in [-3M,3M] ∪ B (large M: r+kM for boundary residues r, |k|<=3, ∪ B; B reaches i64::MIN/MAX); \
-         neg, inv, Display, Debug, Writer output on every residue; ==, + - * / and += -= *= /= on every ordered residue pair (large M: boundary residues); pow on every (x, e), e in 0..=2M ∪ E (E reaches u64::MAX); \
+        "per modulus (74 const-generic instantiations: every M in 2..=64; 46337, 46341, 65536, 65537 where M² leaves 31 / 32 bits; 7 large ones up to 2^31-1): new/read/eq_new on every v in [-3M,3M] ∪ B (M > 64: r+kM for boundary residues r, |k|<=3, ∪ B; B reaches i64::MIN/MAX); \
+         neg, inv, Display, Debug, Writer output on every residue; ==, + - * / and += -= *= /= on every ordered residue pair (M > 64: boundary residues = 0..3, M/2±1, M-3..M-1, 46340, 46341, isqrt(M)±1 and EVERY 2^k, 2^k±1 below M); \
+         pow on every (x, e), e in 0..=128 ∪ 0..=2M (small M) ∪ {M-2..M+1, 2M} ∪ {2^k, 2^k±1 : k<64} ∪ {u64::MAX-1, u64::MAX}; \
          all compared with i128 reference arithmetic; / and inv only for gcd(y,M)=1 (others counted in skipped_out_of_domain). \
+         The same case list is executed in three deterministic schedules, each on threads created for it: isolated (every modulus alone on a fresh thread), ascending and descending (one fresh thread works through all moduli in that order), \
+         so a result that depends on what the thread did before — under the same or under another modulus — is met with the polluter before and after the victim, independent of rayon's scheduling; evaluations counts all three. \
+         A failure is reported for the first schedule that shows it (signature suffix ,schedule=… if that is not `isolated`). Replay: one fresh process per history, the call on a fresh thread, alone and after the same call with the same raw arguments under the 2 nearest smaller and 2 nearest larger instantiated moduli (both orders); \
+         if that does not show it, the replay re-executes the recorded prefix of the schedule on a fresh thread. \
          Cases are distinct by construction (de-duplicated argument sets). Non-trivial = the reduction had something to do: new/read/eq_new with v outside [0,M); add with x+y>=M; sub with x<y; mul with x*y>=M; \
          neg of non-zero; inv of a unit > 1; div by a unit > 1 with x != 0; pow with x>=2 and e>=2; rendering of a representative with >= 2 digits; inverse table entries with inv(x) != x. \
-         distinct_nontrivial is the measured number of such cases in the release pass.",
+         distinct_nontrivial is the measured number of such cases in ONE schedule (isolated) of the release pass.",
     );
+    run.assume("state kept by the code under test between calls, if any, is per thread or per process and evolves deterministically with the calls made; the three schedules and the replay histories are deterministic functions of the modulus list");
     run.assume("a value with representative r can only be built through Modular::new(r) (fields are private); every r used as an operand is itself a `new` case, so a wrong constructor is reported under `new` and the dependent cases are counted in skipped_operand_unconstructible");
     run.assume("0^0 = 1 (empty product), as for Rust's integer pow");
     run.finish(&confirm)
